@@ -443,9 +443,9 @@ func c18Session(c *c18Case) (impl, pred string, notes []string) {
 			if err := getCP(); err != nil {
 				return err
 			}
-			if err := cp.Close(); err != nil {
-				return err
-			}
+			// (its result is not the point here: on net/rpc it may report the connection as already shut down when the
+			// plugin is gone before the remaining streams are closed; what matters is that the plugin exits)
+			_ = cp.Close()
 			stage = "pre-close-exit"
 			for dl := time.Now().Add(10 * time.Second); !client.Exited(); {
 				if time.Now().After(dl) {
